@@ -13,7 +13,7 @@ From Coq.Strings Require Import Byte String.
 From EsVerif.Common Require Import Base Bytes.
 From EsVerif.C01 Require Import Framing.
 From EsVerif.C04 Require TextModel Spec FmtModel.
-From EsVerif.C03 Require Import Model Spec Lemmas Proofs Witness Exec ExecProofs Deep TextRows.
+From EsVerif.C03 Require Import Model Spec Lemmas Proofs Witness Exec ExecProofs Deep TextRows GenLib Gen GenTie GenDeep.
 Import ListNotations.
 Open Scope Z_scope.
 Open Scope list_scope.
@@ -249,6 +249,43 @@ Example C03_deep_nonvacuous :
   /\ compat (Some [x2c]) tx_dt tx_dt_be = true /\ compat None tx_dt tx_dt_be = false
   /\ chunk_ok ex_c2 /\ chunk_ok ex_bad.
 Proof. repeat split; try reflexivity; try discriminate; repeat constructor. Qed.
+
+(* ================================================================== round 6: tie to the source
+   C03/Gen.v is GENERATED from esutil/sfile.py and records.cpp (harness/props/c03_translate.py); on every
+   run it is regenerated from the working tree and the lemmas of GenTie.v are re-checked against it.
+   The three theorems below are about the committed translation (the last integrated tree). *)
+
+(* the model's compatibility decision IS the test translated from _ensure_compatible_dtype *)
+Theorem C03_gen_compatible : forall dl fdt cdt,
+  compatible dl fdt cdt = negb (match dl with None => gen_bad_binary fdt cdt | Some _ => gen_bad_text fdt cdt end).
+Proof. exact tie_compatible. Qed.
+
+(* the model's append arithmetic IS _update_size + update_row_count as translated: the translated new
+   size is printed at offset 0 in the translated format and cached *)
+Theorem C03_gen_size_update : forall enc c d f h fdt,
+  h_hdr h = true -> h_dtype h = Some fdt -> compatible (h_delim h) fdt (c_dt c) = true ->
+  let n' := gen_size_new (h_size h) (nrows c) in
+  exists h', sf_write enc c d {| disk := Some f; hnd := Some h |}
+             = ({| disk := Some (overwrite (size_line n' ++ [nl]) f ++ payload enc (h_delim h) c); hnd := Some h' |}, OOk)
+             /\ h_size h' = n'.
+Proof. exact tie_size_new. Qed.
+
+Theorem C03_gen_size_line : forall n,
+  size_line n ++ [nl] = gen_size_prefix ++ pad_left gen_size_width (dec n) ++ gen_size_suffix.
+Proof. exact tie_size_line. Qed.
+
+(* the exact rejection set, in terms of the translated test and the translated exception class *)
+Theorem C03_rejection_is_source_test : forall meta enc s af o c dl d u,
+  Inv meta enc s (AFile af o) -> total af + nrows c < 10 ^ 20 -> chunk_ok c ->
+  (snd (step meta enc s (FnWrite true dl c d u)) = OErr gen_incompatible_error <-> gen_bad (a_dl af) (a_dt af) (c_dt c) = true)
+  /\ (snd (step meta enc s (FnWrite true dl c d u)) = OOk <-> gen_bad (a_dl af) (a_dt af) (c_dt c) = false).
+Proof. exact rejection_is_source_test. Qed.
+
+Example C03_gen_nonvacuous :
+  gen_bad None ex_dt (c_dt ex_bad) = true /\ gen_bad None ex_dt (c_dt ex_c2) = false
+  /\ gen_bad (Some [x2c]) tx_dt tx_dt_be = false /\ gen_bad None tx_dt tx_dt_be = true
+  /\ gen_fn_mode true = MRP /\ gen_open_mode MRP false = MW /\ gen_size_new 5 3 = 8.
+Proof. repeat split; reflexivity. Qed.
 
 (* Non-vacuity: a closed 7-operation history (create, write again, read while open, close,
    append by reopening, an incompatible append, read) meets every premise of C03_history and
